@@ -118,7 +118,20 @@ def run(tier, seed, only=None):
             obs.append(oblig.Ob("CDw(1 panel) == CDw(2 panels) [%s/%s]" % (pa.label(), pb.label()),
                                 lhs=pa.result["outputs"]["CDw"].ravel()[0], rhs=pb.result["outputs"]["CDw"].ravel()[0],
                                 assume=adm + pa.conds + pb.conds, meta={"family": "wave drag is independent of the spanwise panel count on a constant-chord wing"}))
-    run_obligations(rep, "WaveDrag mesh independence", obs, timeout, family=lambda ob: "WaveDrag: " + ob.meta["family"])
+    def mesh_indep_replay(cls, mod, over, ckw, ins_of, out):
+        def rp(ob, env):
+            vals = {"c": 1.3, "tc": 0.12, "w1": 0.8, "w2": 1.7, "cos_sweep": 0.9, "Mach_number[0]": 0.85, "CL[0]": 0.5, "re[0]": 2.0e6, "S_ref[0]": 7.0}
+            got = []
+            for ny, ws in ((2, [vals["w1"] + vals["w2"]]), (3, [vals["w1"], vals["w2"]])):
+                sx = K.surface(2, ny, True, **over)
+                got.append(float(np.ravel(SymComp(A + mod, cls, surface=sx, **ckw).real(ins_of(ny, ws, vals))[out])[0]))
+            return model.differs(got[0], got[1], 1e-9), "%s = %.12g with one spanwise panel, %.12g with the same strip split in two" % (out, got[0], got[1])
+        return rp
+
+    wave_ins = lambda ny, ws, v: {"Mach_number": [v["Mach_number[0]"]], "CL": [v["CL[0]"]], "widths": ws, "lengths_spanwise": [w / v["cos_sweep"] for w in ws],
+                                   "chords": [v["c"]] * ny, "t_over_c": [v["tc"]] * (ny - 1)}
+    run_obligations(rep, "WaveDrag mesh independence", obs, timeout, family=lambda ob: "WaveDrag: " + ob.meta["family"],
+                    replay=mesh_indep_replay("WaveDrag", "wave_drag", {"with_wave": True}, {"with_wave": True}, wave_ins, "CDw"))
 
     # ---------------- viscous drag
     re_, S_ref = var("re[0]"), var("S_ref[0]")
@@ -182,7 +195,10 @@ def run(tier, seed, only=None):
             res[ny] = sc.sym1(ins, assumptions=adm)["CDv"].ravel()[0]
         obs = [oblig.Ob("CDv(1 panel) == CDv(2 panels)", lhs=res[2], rhs=res[3], assume=adm,
                         meta={"family": "viscous drag is independent of the spanwise panel count on a constant-chord wing"})]
-        run_obligations(rep, "ViscousDrag mesh independence[k_lam=%g]" % k_lam, obs, timeout, family=lambda ob: "ViscousDrag: " + ob.meta["family"])
+        visc_ins = lambda ny, ws, v: {"re": [v["re[0]"]], "Mach_number": [v["Mach_number[0]"]], "S_ref": [v["S_ref[0]"]], "widths": ws,
+                                       "lengths_spanwise": [w / v["cos_sweep"] for w in ws], "lengths": [v["c"]] * ny, "t_over_c": [v["tc"]] * (ny - 1)}
+        run_obligations(rep, "ViscousDrag mesh independence[k_lam=%g]" % k_lam, obs, timeout, family=lambda ob: "ViscousDrag: " + ob.meta["family"],
+                        replay=mesh_indep_replay("ViscousDrag", "viscous_drag", {"with_viscous": True, "k_lam": k_lam}, {"with_viscous": True}, visc_ins, "CDv"))
     # chordwise independence: the strip chord `lengths` of a flat constant-chord wing does not depend on nx
     for nx in (2, 3):
         sg = K.surface(nx, 2, True)
@@ -197,7 +213,15 @@ def run(tier, seed, only=None):
         obs = [oblig.Ob("lengths[%d] == chord (nx=%d)" % (j, nx), lhs=o["lengths"][j], rhs=cch, assume=adm,
                         meta={"family": "strip chord length is independent of the chordwise panel count on a flat wing"}) for j in range(2)]
         obs += [oblig.Ob("widths == dy (nx=%d)" % nx, lhs=o["widths"][0], rhs=ys[1] - ys[0], assume=adm, meta={"family": "strip width is independent of the chordwise panel count"})]
-        run_obligations(rep, "strip geometry nx=%d" % nx, obs, timeout, levels=(2,), family=lambda ob: "VLMGeometry: " + ob.meta["family"])
+        def geo_rp(ob, env, sc=sc, nx=nx):
+            x0v, cv, ya, yb, xiv = 0.3, 1.7, -2.0, -0.5, 0.37
+            xs = [0.0, 1.0] if nx == 2 else [0.0, xiv, 1.0]
+            mv = np.array([[[x0v + cv * xs[i], (ya, yb)[j], 0.0] for j in range(2)] for i in range(nx)], dtype=float)
+            real = sc.real({"def_mesh": mv})
+            bad = np.abs(real["lengths"] - cv).max() > 1e-9 or abs(real["widths"][0] - (yb - ya)) > 1e-9
+            return bad, "flat wing of chord %.3g, nx=%d: strip chords %s, width %s" % (cv, nx, real["lengths"], real["widths"])
+
+        run_obligations(rep, "strip geometry nx=%d" % nx, obs, timeout, levels=(2,), family=lambda ob: "VLMGeometry: " + ob.meta["family"], replay=geo_rp)
     rep.bounds = {"ny": nys}
     rep.assumptions = ["real arithmetic", "log/pow are uninterpreted atoms with instantiated sign/monotonicity facts; ln(Re_c k_lam) > ln(1e3) given as the admissibility box",
                        "Re-monotonicity and positivity with transition (0 < k_lam < 1) need x/log10(x)^2.58 monotone: posed and reported inconclusive if undecided"]
